@@ -5,31 +5,31 @@ CAVEAT = ("Deterministic simulation samples; a clean batch is evidence, not proo
 checks = {
  "C09": dict(engine="mapsim", cat="exploration", ref="DESIGN.md §5.4",
    technique="deterministic simulation (reduced form): seeded operation histories on the real SourceMapper vs reference model + independent v3 decoder; tape-minimised replay; exhaustive VLQ integer sweep [-2^20,2^20]",
-   text="Seeded search over operation histories (records, named records, column/string/line advances, snapshots at arbitrary points) driven by a simulated client against the real sourcemap.SourceMapper; every snapshot is decoded by an independent Source Map v3 decoder and compared with a reference model of absolute mappings and the first-seen name table. The VLQ codec is additionally enumerated exhaustively over [-2^20,2^20] and sampled to 2^31 through the public API. Exploration is the right level: the encoder is stateful across the whole segment list, so the space is histories, which can only be sampled.",
+   text="Seeded search over operation histories (records, named records, column/string/line advances, snapshots at arbitrary points) driven by a simulated client against the real sourcemap.SourceMapper; every snapshot is decoded by an independent Source Map v3 decoder and compared with a reference model of absolute mappings and the first-seen name table. The VLQ codec is additionally enumerated exhaustively over [-2^20,2^20] and sampled to 2^31 through the public API. Exploration is the right level: the encoder is stateful across the whole segment list, so the space is histories, which can only be sampled. Clients: direct calls, a real ast.CodeWriter owning the mapper, one Compiler with a source map compiling several programs. Every verified map (snapshot or compile result) is kept and re-read at the end of the history; advanced strings include U+2028/U+2029/NEL/VT/FF/NUL (columns, not line breaks).",
    note=CAVEAT+"Reduced form of the family: one simulated client, no scheduler, no crash (a SourceMapper has nothing to schedule or crash). Trusted: harness model and decoder (cross-checked against go-sourcemap), columns counted in bytes."),
  "C11": dict(engine="faultsim", cat="fault_enumeration", ref="DESIGN.md §5.6",
    technique="deterministic fault injection: every token deletion / separator removal / truncation offset plus seeded byte corruption of generated programs x 4 parser modes; invariants on the result; watchdog for no-progress; tape-minimised replay",
-   text="For each seeded valid program every single-token deletion, separator removal and truncation offset is enumerated, plus seeded byte-level corruptions and random byte strings, under strict/tolerant x smart-semicolon on/off. Invariants: no panic, termination (pull-count bound + process watchdog), error value iff error list non-empty, no nil (incl. typed-nil) statement entries, every error range equals a token range of the input, and error-free trees have all mandatory children and compile under every compiler configuration without panicking.",
+   text="For each seeded valid program every single-token deletion, separator removal and truncation offset is enumerated, plus seeded byte-level corruptions and random byte strings, under strict/tolerant x smart-semicolon on/off. Invariants: no panic, termination (pull-count bound + process watchdog), error value iff error list non-empty, no nil (incl. typed-nil) statement entries, every error range equals a token range of the input, and error-free trees have all mandatory children and compile under every compiler configuration without panicking. Also: token swap/duplicate/replace/insert mutations, double faults, odd prefixes (BOM, shebang, NUL ...), per-run shared builders after plugin-bearing neighbour parsers, Errors() read before parsing in a third of the runs, second ParseProgram call, earlier parser's errors re-read after a later parse; every error range must additionally lie inside the input (computed from the text alone, independent of the lexer).",
    note=CAVEAT+"Reduced form: fault-injection half of the family only (the stored source text is the faulty medium); exhaustive over fault positions per program, sampled over programs. Token ranges are taken from xjs's own lexer run alone on the same input."),
  "C12": dict(engine="faultsim", cat="fault_enumeration", ref="DESIGN.md §5.5",
    technique="deterministic fault injection: every token deletion / separator removal / truncation offset of generated valid programs; precondition = rejected by BOTH goja and node; oracle = strict-mode error, located no earlier than the last intact token",
-   text="For each seeded valid program every single-token deletion, every statement-separator removal and every truncation offset is enumerated; when both reference JavaScript parsers (goja in-process, node vm.Script) reject the corrupted text, strict-mode parsing must report an error whose first range starts no earlier than the last intact token before the corruption point. Exhaustive over fault positions per program, sampled over programs.",
+   text="For each seeded valid program every single-token deletion, every statement-separator removal and every truncation offset is enumerated; when both reference JavaScript parsers (goja in-process, node vm.Script) reject the corrupted text, strict-mode parsing must report an error whose first range starts no earlier than the last intact token before the corruption point. Exhaustive over fault positions per program, sampled over programs. The strict builder has a seeded mode history, may be switched to tolerant between Build and ParseProgram, may have smart semicolons on where they cannot act; Errors() may be read before parsing; the previous parser's report is judged again after the next parser has run.",
    note=CAVEAT+"Reduced form: fault-injection half of the family only. Trusted: goja and node as reference parsers (a case is demanded only when both reject); generator token offsets (checked against xjs's lexer per program; disagreement discards the program). Known findings listed in known_findings.json are reported as KNOWN-FINDING lines."),
  "C04": dict(engine="plugsim", cat="exploration", ref="DESIGN.md §5.2",
    technique="deterministic simulation of plugin parties: the simulator plays 0..8 token/statement/expression interceptors and decides each invocation's action (pass, observe, re-enter) from the seed; callback history checked for order/exactly-once; result compared with the zero-interceptor run",
-   text="The simulator plays all interceptors (installed directly or via Install, seeded counts and order) and decides at every invocation whether the party passes through or re-enters the parser (ParsePrefixExpression + ParseRemainingExpression). Oracles: transparency (tokens, tree dump, errors, compact and pretty output byte-identical to the zero-interceptor run, on valid and corrupted programs), well-nested exactly-once invocation in installation order from the recorded callback history, current token = first token of the construct (generator ground truth), token interceptors once per token with the lexer on the lexeme's first byte, re-entrant path gives the same tree.",
+   text="The simulator plays all interceptors (installed directly or via Install, seeded counts and order) and decides at every invocation whether the party passes through or re-enters the parser (ParsePrefixExpression + ParseRemainingExpression). Oracles: transparency (tokens, tree dump, errors, compact and pretty output byte-identical to the zero-interceptor run, on valid and corrupted programs), well-nested exactly-once invocation in installation order from the recorded callback history, current token = first token of the construct (generator ground truth), token interceptors once per token with the lexer on the lexeme's first byte, re-entrant path gives the same tree. Further scenarios: 1-3 parsers per builder with parties installed between builds, plugins in four spellings, nested/sibling parsers run inside interceptors, steps requested through public ParseStatement / specific parse functions / ParseExpressionWithPrecedence, operator stand-in (a registered infix operator replaces a built-in one: same steps), operator transparency (registered infix at any level 2..16 plus prefix and postfix operators: k pass-through or re-entering interceptors leave tree, errors, output unchanged), every sub-expression had a step at its first token, token-interceptor count vs Lexer.NextToken calls from the guarded hook, odd input prefixes.",
    note=CAVEAT+"Trusted: the generator's token and statement ground truth (validated per program against xjs's plain lexer; mismatches discard the program). The action schedule space is 2^invocations per program and is sampled."),
  "C16": dict(engine="plugsim", cat="exploration", ref="DESIGN.md §5.7",
    technique="deterministic simulation of observing plugin parties: context queries recorded at every statement/expression interceptor invocation and compared with the generator's nesting ground truth; final-state invariant on valid and fault-injected inputs in all 4 modes",
-   text="Observer interceptors record IsInFunction() and CurrentContext() at every invocation together with the ordinal of the current token; ground truth for that token comes from the program generator (enclosing function bodies and blocks). After ParseProgram returns - for valid programs and for every injected corruption, in all four mode combinations - the context must be top level and not in a function.",
+   text="Observer interceptors record IsInFunction() and CurrentContext() at every invocation together with the ordinal of the current token; ground truth for that token comes from the program generator (enclosing function bodies and blocks). After ParseProgram returns - for valid programs and for every injected corruption, in all four mode combinations - the context must be top level and not in a function. Further: step-balance invariant on every input, bail-out (panic/recover) parties, plugin context brackets with a pushed-context oracle, sparse questioning, plugin sets with only statement or only expression parties, forced deep chains (to 550 contexts; block-only or function-only outer levels), fused statements under tolerant mode, plugin-defined syntax (lambda / unless written with ParseFunctionParameters, ParseExpression, ParseBlockStatement) with its own ground truth, nested and sibling parsers inside interceptors.",
    note=CAVEAT+"Oracle is deliberately permissive for tokens directly inside a function body (FunctionContext or BlockContext accepted; see DESIGN.md §5.7), strict everywhere else. Trusted: generator nesting ground truth."),
  "C05": dict(engine="regsim", cat="exploration", ref="DESIGN.md §5.3",
    technique="deterministic simulation of registering plugins: seeded registration histories (with repeats, refusals as injected faults, builds at arbitrary points) vs a reference registration model; grouping checked by substitution against built-in operators and a declarative grouping model",
-   text="Seeded histories of RegisterTokenType / Register{Prefix,Infix,Postfix}Operator (names and tokens repeat, built-in tokens included so refusals occur) interleaved with Build operations are checked operation by operation against a reference model (stable injective ids, role sets seeded with the built-ins, refusal leaves everything unchanged). After each Build probe expressions place every registered operator next to every built-in level on both sides; grouping must equal that of a built-in operator of the same level (substitution oracle) or the declarative model where no built-in binary operator exists at that level.",
+   text="Seeded histories of RegisterTokenType / Register{Prefix,Infix,Postfix}Operator (names and tokens repeat, built-in tokens included so refusals occur) interleaved with Build operations are checked operation by operation against a reference model (stable injective ids, role sets seeded with the built-ins, refusal leaves everything unchanged). After each Build probe expressions place every registered operator next to every built-in level on both sides; grouping must equal that of a built-in operator of the same level (substitution oracle) or the declarative model where no built-in binary operator exists at that level. Further: twin builder with refused operations deleted, registrations from inside plugins, builders carrying pass-through / re-entrant expression interceptors and an operand plugin (operand supplied by an expression interceptor), smart-semicolon builders, built-in host scenario (role on a built-in token lacking it), near-variant and keyword-spelled names, out-of-range levels, line breaks before infix operators, parenthesised operands.",
    note=CAVEAT+"Levels and neighbours are covered deterministically first, histories are sampled. Known finding: level 1 (LOWEST) infix operators are accepted but never parsed (known_findings.json)."),
  "C14": dict(engine="worldsim", cat="exploration", ref="DESIGN.md §5.1",
    technique="deterministic simulation: seeded cooperative scheduler interleaves up to 16 caller tasks (real goroutines released one at a time at plugin-callback yield points); oracle = every job's result equals its solo run in a fresh process; supplementary -race parallel leg",
-   text="Up to 16 simulated caller tasks run parse/compile jobs (distinct inputs, plugins, operators with colliding dynamic token ids, options; shared builders build many parsers; shared trees compiled repeatedly in seeded configuration orders) under a seeded scheduler (random, PCT-like priorities, round-robin, sequential) that switches tasks at plugin-callback seams inside ParseProgram and Compile. Every job's canonical result (token ids, errors, tree dumps, code per configuration, source maps, debug strings, observed callback log) must be byte-identical to the same job run alone in a fresh process; intra-job invariants check recompilation, source-map-independence of code and debug string = compact output. A supplementary leg runs the same jobs free on 16 goroutines under the race detector.",
+   text="Up to 16 simulated caller tasks run parse/compile jobs (distinct inputs, plugins, operators with colliding dynamic token ids, options; shared builders build many parsers; shared trees compiled repeatedly in seeded configuration orders) under a seeded scheduler (random, PCT-like priorities, round-robin, sequential) that switches tasks at plugin-callback seams inside ParseProgram and Compile. Every job's canonical result (token ids, errors, tree dumps, code per configuration, source maps, debug strings, observed callback log) must be byte-identical to the same job run alone in a fresh process; intra-job invariants check recompilation, source-map-independence of code and debug string = compact output. A supplementary leg runs the same jobs free on 16 goroutines under the race detector. Further: guarded yield points inside /repo (every token pull and write), twin-builder oracle, reconfigured-compiler oracle, handed-out results / parser errors / tokens re-read at job end, residue check after every world, long flat programs (33-80 statements), CRLF sources, keyword typos, hosts completing source maps, plugins replacing the root context, first compilations performed concurrently.",
    note=CAVEAT+"The cooperative scheduler only sees effects that cross a yield point (callback seams; plugin-free jobs interleave at API-call boundaries); pure data races are left to the supplementary -race leg, which is runtime monitoring and not exactly replayable."),
 }
 na = {
